@@ -688,3 +688,59 @@ Theorem C10_nest_shared_nonblocking_guard_refuted :
    FinNest.o_st (FinNest.hp c 1%nat) = FinNest.Idle /\ FinNest.o_calls (FinNest.hp c 1%nat) = 0%nat).
 Proof. exact FinNestProofs.shared_guard_refuted_all. Qed.
 Print Assumptions C10_nest_shared_nonblocking_guard_refuted.
+
+(** * Part 7: ALL client code run inside [next()] (model/IterClient.v)
+
+    [_render_] is not the only client code [RenderIterator.__next__] runs: the padding step calls
+    [pad] (-> [_get_exact_dimensions_]) of the iterator's padding object - a client [Padding]
+    subclass is part of the public API - and the iterator reads attributes of whatever [_render_]
+    returned.  [client] is ONE oracle for all of it (any state-passing function: returns a value,
+    returns garbage, raises StopIteration, raises another exception).  [late = false] is the code
+    (the padding step inside the generator, i.e. inside [__next__]'s try/except ladder). *)
+From TI Require model.IterClient model.IterClientTie proofs.IterClientProofs.
+
+(** whatever ended a [next()] without a frame - an exception out of [_render_], out of the
+    padding's [pad], the iterator tripping over a non-Frame, StopIteration - the iterator is
+    closed, owned data is finalized by exactly one entry (data of another owner: none), and from
+    then on [next()] stops, control operations raise the finalized-iterator error, [close()] is
+    accepted and nothing is finalized again *)
+Theorem C10_client_any_failure_in_next_closes : forall CS client n own p rsz psz c0 ops s' x,
+  let s := IterClient.run CS client n false (IterClient.mk CS own p rsz psz c0) ops in
+  IterClient.closed s = false ->
+  IterClient.next CS client n false s = (s', x) ->
+  (forall b, x <> IterClient.OFrame b) ->
+  IterClient.closed s' = true /\
+  IterClient.finalized (IterClient.gh s') = own /\
+  IterClient.fin_calls (IterClient.gh s') = (if own then 1 else 0)%nat /\
+  forall o, let '(s'', y) := IterClient.step CS client n false s' o in
+            IterClient.dead_outcome o y = true /\ IterClient.gh s'' = IterClient.gh s'.
+Proof. exact IterClientProofs.next_failure_closes. Qed.
+Print Assumptions C10_client_any_failure_in_next_closes.
+
+(** the observable history of every run, under every behaviour of the client code, satisfies the
+    history-level specification the correspondence judges observations by ([IterClient.spec_ok]:
+    a function of operations, outcomes, finalizer entries and the [finalized] flag alone) *)
+Theorem C10_client_history_meets_spec : forall CS client n own p rsz psz c0 ops,
+  IterClient.spec_ok own false
+    (IterClient.trace CS client n false (IterClient.mk CS own p rsz psz c0) ops) = true.
+Proof. exact IterClientProofs.trace_spec_ok. Qed.
+Print Assumptions C10_client_history_meets_spec.
+
+(** no client code is ever entered with finalized render data *)
+Theorem C10_client_never_entered_with_finalized_data : forall CS client n own p rsz psz c0 ops,
+  IterClient.bad_use (IterClient.gh
+    (IterClient.run CS client n false (IterClient.mk CS own p rsz psz c0) ops)) = 0%nat.
+Proof. exact IterClientProofs.never_used_finalized. Qed.
+Print Assumptions C10_client_never_entered_with_finalized_data.
+
+(** the excluded design - the frame is padded / post-processed by [__next__] BEHIND the ladder
+    ([late = true]) - fails the specification: a padding whose [pad] raises on the second frame
+    (and a [_render_] returning a non-Frame) leaves the iterator open and the data un-finalized *)
+Theorem C10_client_padding_after_the_ladder_refuted :
+  (exists n s ops, IterClient.spec_ok true false
+     (IterClient.trace IterClientTie.script IterClientTie.scripted n true s ops) = false) /\
+  (forall CS client n own p rsz psz c0 ops,
+     IterClient.spec_ok own false
+       (IterClient.trace CS client n false (IterClient.mk CS own p rsz psz c0) ops) = true).
+Proof. exact IterClientProofs.refuted_all. Qed.
+Print Assumptions C10_client_padding_after_the_ladder_refuted.
